@@ -431,7 +431,13 @@ pub fn hostile_cases() -> Vec<(FileCase, usize, i32)> {
     for f in files {
         for &off in &f.counts {
             let actual = i32::from_le_bytes(f.bytes[off..off + 4].try_into().unwrap());
-            for v in [-1, i32::MIN, i32::MAX, actual + 1, 1 << 24, 1 << 30, 0x7fff_fff0] {
+            let mut vs = vec![-1, i32::MIN, i32::MAX, actual + 1, 1 << 24, 1 << 30, 0x7fff_fff0];
+            // the true count plus a power of two: an alias if the count is shifted, multiplied or
+            // narrowed before it is used
+            for k in 8..=31u32 {
+                vs.push(actual.wrapping_add(1i32.wrapping_shl(k)));
+            }
+            for v in vs {
                 out.push((f.clone(), off, v));
             }
         }
